@@ -82,7 +82,13 @@ fn main() {
   for _ in 0..ncalls {
     let q = match rng.below(4) {
       0 => rng.pick(&words).to_string(),
-      1 => format!("{} {}", rng.pick(&words), rng.pick(&words)),
+      1 => {
+        // two different words: the same term under two scoring leaves trips a debug assertion in
+        // search_segment (known finding C16/1), which aborts the process across the C boundary
+        let a = rng.below(words.len() as u64) as usize;
+        let b = (a + 1 + rng.below(words.len() as u64 - 1) as usize) % words.len();
+        format!("{} {}", words[a], words[b])
+      }
       2 => serde_json::json!({"type":"match_all"}).to_string(),
       _ => serde_json::json!({"type":"term","field":"body","value": rng.pick(&words)}).to_string(),
     };
